@@ -151,6 +151,12 @@ def cases():
                               "    subroutine helper()\n    end subroutine helper\n  end subroutine p\n"), 0)
     yield ("type_shadow", _mod("  subroutine p()\n    type :: t\n      integer :: b\n    end type t\n    type(t) :: v\n  end subroutine p\n",
                               spec="  type :: t\n    integer :: a\n  end type t\n"), 0)
+    yield ("use_leak", ("module other\n  implicit none\n  type :: t\n    integer :: from_other\n  end type t\n  type :: only_in_other\n    integer :: q\n  end type only_in_other\nend module other\n"
+                        "module m\n  implicit none\n  type :: t\n    integer :: from_host\n  end type t\ncontains\n  subroutine first()\n    use other\n    type(t) :: a\n  end subroutine first\n"
+                        "  subroutine second()\n    type(t) :: b\n    type(only_in_other), pointer :: c\n  end subroutine second\nend module m\n"), 0)
+    yield ("dummy_hides_host", ("module solver\n  implicit none\ncontains\n  subroutine rhs(t)\n    real :: t\n  end subroutine rhs\n  subroutine integrate(rhs, n)\n    interface\n      function rhs(t) result(y)\n"
+                                "        real, intent(in) :: t\n        real :: y\n      end function rhs\n    end interface\n    integer :: n\n    procedure(rhs), pointer :: saved\n  end subroutine integrate\n"
+                                "  subroutine other()\n    procedure(rhs), pointer :: q\n  end subroutine other\nend module solver\n"), 0)
     yield ("undeclared", _mod("  subroutine p()\n    type(nowhere) :: v\n  end subroutine p\n"), 0)
     yield ("extension_chain_out_of_order", EXT_CHAIN, 0)
     yield ("nested_submodule", NESTED_SUBMODULE, 0)
@@ -258,6 +264,29 @@ def check(kind, proj):
             bad.append("type(CIRCLE) does not resolve to type Circle of the same scope")
         if ty["Disc"].extends is not ty["Circle"]:
             bad.append("extends(circle) does not resolve to type Circle")
+    elif kind == "use_leak":
+        m = [x for x in proj.modules if x.name == "m"][0]
+        other = [x for x in proj.modules if x.name == "other"][0]
+        first, second = _find(m.subroutines, "first"), _find(m.subroutines, "second")
+        a, b, c = _find(first.variables, "a"), _find(second.variables, "b"), _find(second.variables, "c")
+        if isinstance(a.proto[0], str) or a.proto[0].parent is not other:
+            bad.append("type(t) in first (which has `use other`) does not resolve to other's t")
+        if isinstance(b.proto[0], str) or b.proto[0].parent is not m:
+            bad.append("type(t) in second resolves to the t that its sibling first imported, not to the host module's t")
+        if not isinstance(c.proto[0], str):
+            bad.append("type(only_in_other) in second resolves although only its sibling first uses module other")
+        if m.all_types.get("t") is not _find(m.types, "t") or "only_in_other" in m.all_types:
+            bad.append("the name table of the host module m holds types that its procedure first imported")
+    elif kind == "dummy_hides_host":
+        integ, other = _find(m.subroutines, "integrate"), _find(m.subroutines, "other")
+        saved, q = _find(integ.variables, "saved"), _find(other.variables, "q")
+        host_rhs = _find(m.subroutines, "rhs")
+        target = saved.proto[0]
+        target = getattr(target, "procedure", target)
+        if isinstance(target, str) or target is host_rhs or getattr(target, "proctype", "").lower() != "function":
+            bad.append("procedure(rhs) inside integrate, whose dummy argument rhs has an interface body, resolves to the module's subroutine rhs")
+        if q.proto[0] is not host_rhs:
+            bad.append("procedure(rhs) in the sibling procedure other does not resolve to the module's subroutine rhs")
     elif kind == "undeclared":
         p = _find(m.subroutines, "p")
         v = _find(p.variables, "v")
